@@ -68,6 +68,8 @@ def library():
     add("p-ref-named", lambda k: named(k, "p"))
     add("ul-ref-named", lambda k: named(k, "ul"))
     add("p-ref-named-late", lambda k: named(k, "late"))
+    add("p-ref-two-links", lambda k: ("p", [T(k), ("ref", [T(k), ("link", k(), [T(k)]), T(k), ("link", k(), [T(k), T(k)]), ("link", k(), None)])]))
+    add("p-ref-two-extlinks", lambda k: ("p", [T(k), ("ref", [("ext", k(), [T(k)]), T(k), ("ext", k(), [T(k)])])]))
     add("p-italic-link", lambda k: ("p", [("i", [("link", k(), [T(k)])])]))
     add("ul", lambda k: ("list", "*", [([T(k)], None), ([T(k)], None)]))
     add("ol", lambda k: ("list", "#", [([T(k)], None), ([T(k)], None)]))
@@ -84,6 +86,10 @@ def library():
     add("table-caption", lambda k: ("table", [[("c", [T(k)]), ("c", [T(k)])], [("c", [T(k)]), ("c", [T(k)])]], False, [T(k)]))
     add("table-1x1-caption", lambda k: ("table", [[("c", [T(k), T(k)])]], False, [T(k)]))
     add("table-2x1-caption", lambda k: ("table", [[("c", [T(k)])], [("c", [T(k)])]], False, [T(k)]))
+    add("table-caption-link", lambda k: ("table", [[("c", [T(k)]), ("c", [T(k)])], [("c", [T(k)]), ("c", [T(k)])]], False,
+                                         [T(k), ("link", k(), [T(k)]), T(k)]))
+    add("table-caption-plainlink-styled", lambda k: ("table", [[("c", [T(k)]), ("c", [T(k)])], [("c", [T(k)]), ("c", [T(k)])]], False,
+                                                     [("link", k(), None), ("i", [T(k)]), ("b", [T(k)])]))
     add("table-styled", lambda k: ("table", [[("c", [("b", [T(k)])]), ("c", [("link", k(), [T(k)])])], [("c", [T(k)]), ("c", [("i", [T(k)])])]], False, None))
     add("table-list", lambda k: ("table", [[("cb", [("list", "*", [([T(k)], None), ([T(k)], None)])]), ("c", [T(k)])],
                                            [("c", [T(k)]), ("c", [T(k)])]], False, None))
